@@ -191,6 +191,11 @@ def _fix_dsd(rng, params, pt, t):
     p['r_2'] = max(p['r_1'], p['alpha_2'] / p['D_CJ_2']) + rng.uniform(0.05, 2.0)
     if rng.random() < 0.06:
         p['r_2'] = 0.9 * p['r_1']
+    # radius uniform in [0, 2 r_2]: inside the detonator circle, inner material, outer material
+    n = (pt[0] ** 2 + pt[1] ** 2) ** 0.5
+    if n > 0:
+        r = rng.uniform(0.0, 2.0 * abs(p['r_2']))
+        pt = [r * pt[0] / n, r * pt[1] / n]
     return p, pt, t
 
 
